@@ -303,7 +303,7 @@ PROPERTIES = {
         ],
     },
     "C09": {
-        "modules": C05_MODULES,
+        "modules": C05_MODULES + ["contracts.c02_replace", "contracts.c02_frontend"],
         "level": "proof",
         "explanation": "every arithmetic / shift / comparison / conversion method of Unsigned, Signed, Integer and cohdl.op.truncdiv/rem is proved equal (kind, width, value; rejections) to the documented operator semantics for all widths and values, from the real source; bit-level primitives are assumed and checked by bounded native enumeration",
         "assumptions": COMMON_ASSUME + BITLEVEL_ASSUME + VHDL_ASSUME + [
